@@ -6,11 +6,11 @@ ID = 'C02'
 LEAN_MODULES = ['HidVerif.Props.C02']
 THEOREMS = ['HidVerif.Props.C02.' + n for n in ('core_try_undo_correct', 'undo_source_law', 'try_ok_source_law', 'core_try_stop_correct', 'stop_source_law', 'stop_ok_source_law', 'undo_law', 'preempt_law', 'preempt_forced', 'stop_law', 'defeat_caught',
                                                  'spec_law', 'spec_compare', 'interp_verdict_sound')] + \
-           ['HidVerif.Core.tryStop_ok', 'HidVerif.Core.cD_ok_vd', 'HidVerif.PSys.jump_law', 'HidVerif.PSys.halts_jump_iff', 'HidVerif.PSys.Reach.jump_taken',
+           ['HidVerif.Core.tryStop_ok', 'HidVerif.Core.cD_ok_vd', 'HidVerif.Core.call_ok', 'HidVerif.PSys.jump_law', 'HidVerif.PSys.halts_jump_iff', 'HidVerif.PSys.Reach.jump_taken',
             'HidVerif.PSys.Reach.jump_fallthrough', 'HidVerif.Sphinx.vm_sound']
 TRUSTED = TRUSTED_BASE
 ASSUMPTIONS = _A + ['the reference semantics gives try/stop the reading the generator implements (preempt forced while defeat is '
-                    'caught); try/undo with defeat calls, and try/stop with !is_defeat() and !truth_is_defeat() under any control flow, in the you function are PROVED end to end for the core sub-language (core_try_undo_correct, core_try_stop_correct, tied by the exact core correspondence); return/break/continue out of try/stop bodies, preempt, ?? and defeat functions in whole programs and histories are validated, not proved']
+                    'caught); try/undo with defeat calls, and try/stop with !is_defeat(), !truth_is_defeat() and calls of (empty, non-preemptive) defeat functions under any control flow, in the you function are PROVED end to end for the core sub-language (core_try_undo_correct, core_try_stop_correct, tied by the exact core correspondence); return/break/continue out of try/stop bodies, preempt, ??, defeat functions that return values or are called from try/undo bodies, in whole programs and histories are validated, not proved']
 RULE = ('generator with try/undo, try/stop, preempt (in try bodies, loops, defeat functions), ??, defeat functions and history '
         'templates (2-5 try blocks in sequence, defeat inline and inside calls); VM vs reference machine; non-trivial = agreeing run '
         'that resolved at least one Turing jump by backtracking')
